@@ -15,7 +15,7 @@ from ..result import finish
 
 ID = "C04"
 ENGINE = "rx"
-RUNS = {"quick": 1600, "thorough": 60000}
+RUNS = {"quick": 1600, "thorough": 20000}
 RULE_TEXT = ("one run = a scripted stream of 20-120 link-layer frames fed to the REAL receive loop (RawLinkLayer.receive on a fake socket, or "
              "PythonCV2XLinkLayer.callback_handler_loop on a fake queue) of a station wired like examples/all_sender_and_receiver.py "
              "(GN+BTP, CA/DEN/VRU reception with or without LDM, security off or on): genuine CAM/VAM/DENM traffic of peer stacks and "
